@@ -4,6 +4,12 @@ import (
 	"fmt"
 	"strings"
 
+	"github.com/buildbuildio/pebbles/executor"
+	"github.com/buildbuildio/pebbles/queryer"
+	"github.com/buildbuildio/pebbles/requests"
+
+	"verif/harness/coqprint"
+
 	"verif/harness/fake"
 	"verif/harness/gen"
 	"verif/harness/hx"
@@ -22,6 +28,9 @@ type fedCase struct {
 
 func worldFor(seed int64, domain string) *gen.World {
 	opt := gen.DefaultWorldOptions()
+	if domain == "ids" {
+		opt.IDAlphabet = "#:. '\"/[]!"
+	}
 	return gen.NewWorld(hx.NewRand(seed), opt)
 }
 
@@ -78,15 +87,49 @@ func driveC01(seed int64, tier, out, replay string) {
 		for i := 0; i < nWorlds; i++ {
 			ws := rng.Int63()
 			for j := 0; j < opsPer; j++ {
-				cases = append(cases, fedCase{WorldSeed: ws, OpSeed: rng.Int63(), Cfg: cfgs[(i+j)%len(cfgs)], Domain: "inD01"})
+				dom := "inD01"
+				if i%2 == 1 {
+					dom = "ids"
+				}
+				cases = append(cases, fedCase{WorldSeed: ws, OpSeed: rng.Int63(), Cfg: cfgs[(i+j)%len(cfgs)], Domain: dom})
 			}
 		}
+	}
+	// listed findings: replayed on the hand-written federation
+	if hand, err := NewRig(handWorld(), RigConfig{}); err == nil {
+		for _, k := range loadKnown("C01") {
+			var kc struct {
+				Op gen.GenOp `json:"operation"`
+			}
+			if jsonUnmarshal(k.Input, &kc) != nil {
+				continue
+			}
+			what, _ := compareFed(hand, kc.Op)
+			if what != "" && !strings.HasPrefix(what, "skip:") {
+				obs.KnownHit = append(obs.KnownHit, hx.Failure{Key: k.Key, What: k.Key + ": " + k.What})
+			} else {
+				obs.KnownGone = append(obs.KnownGone, k.Key)
+			}
+		}
+	}
+	var coq []string
+	pde := executor.VerifNewPointDataExtractor()
+	pointCase := func(point string) string {
+		pd, err := pde.Extract(point)
+		if err != nil {
+			return fmt.Sprintf("CPoint %s None", coqprint.CoqStr(point))
+		}
+		ix := "None"
+		if pd.Index >= 0 {
+			ix = fmt.Sprintf("(Some %d)", pd.Index)
+		}
+		return fmt.Sprintf("CPoint %s (Some (%s, %s, %s))", coqprint.CoqStr(point), coqprint.CoqStr(pd.Field), ix, coqprint.CoqStr(pd.ID))
 	}
 	rigs := map[string]*Rig{}
 	distinct := map[string]bool{}
 	idx := 0
 	for _, c := range cases {
-		key := fmt.Sprint(c.WorldSeed, c.Cfg)
+		key := fmt.Sprint(c.WorldSeed, c.Cfg, c.Domain)
 		r := rigs[key]
 		if r == nil {
 			w := worldFor(c.WorldSeed, c.Domain)
@@ -122,6 +165,29 @@ func driveC01(seed int64, tier, out, replay string) {
 		if what != "" {
 			obs.Fail(idx, what, c)
 		}
+		// model side: the real Clean on the real pre-scrub result, and point data for this world's ids
+		line := "CScrub (Corr.C13.mkCase [] [] [])"
+		if o := selectedOp(r.Merged, op); o != nil {
+			if _, plan, err := planCanon(r, op, o); err == nil {
+				qs := map[string]queryer.Queryer{}
+				for u, s := range r.Services {
+					qs[u] = s
+				}
+				var pe executor.ParallelExecutor
+				before, xerr := pe.Execute(&executor.ExecutionContext{QueryPlan: plan, Request: &requests.Request{Query: op.Query, Variables: op.Variables}, Queryers: qs})
+				if xerr == nil && before != nil {
+					beforeCoq := jsonObjToCoq(before)
+					plan.ScrubFields.Clean(before)
+					line = fmt.Sprintf("CScrub (Corr.C13.mkCase %s\n    %s\n    %s)", scrubToCoq(plan.ScrubFields), beforeCoq, jsonObjToCoq(before))
+				}
+			}
+		}
+		coq = append(coq, line)
+		if ids := r.World.Store.IDs(); len(ids) > 0 {
+			id := ids[idx%len(ids)]
+			coq = append(coq, pointCase(fmt.Sprintf("items:%d#%s", idx%7, id)), pointCase("owner#"+id), pointCase(fmt.Sprintf("al%d:%d", idx%3, idx%11)))
+			obs.CaseInputs = append(obs.CaseInputs, c, c, c)
+		}
 		urls := map[string]bool{}
 		for _, l := range logs {
 			urls[l.URL] = true
@@ -144,6 +210,7 @@ func driveC01(seed int64, tier, out, replay string) {
 	obs.Evaluations = idx
 	obs.DistinctNontrivial = len(distinct)
 	obs.Rule = "generated worlds (1-3 services, Node types split across services, value types, unions, lists with duplicates, nulls) x generated valid operations (depth<=4, aliases, arguments, variables, inline and named fragments, __typename, literal directives, mutations) x 5 gateway configurations; non-trivial = the plan touches at least 2 services; distinct by (world, operation text)"
+	hx.WriteCases(out, "From Pebbles Require Import Base.Json Exec.Scrub Exec.PointData Corr.C13 Corr.C01.\nFrom Coq Require Import List String. Import ListNotations.\nOpen Scope string_scope.\n", "c1case", coq, "mismatches")
 	obs.Write(out)
 }
 
